@@ -306,6 +306,110 @@ func verifEcho(args []xpath.Datum) xpath.Datum {
 	return xpath.NewLiteralDatum("echo:" + s)
 }
 
+// ---------------------------------------------------------------- re-registration
+//
+// A machine keeps the functions it was compiled with: registering another implementation under the same name later
+// (what a plugin reload does) concerns the machines compiled afterwards only.
+
+type ReregCase struct {
+	Src     string  `json:"src"`
+	Ctx     tree.ID `json:"ctx"`
+	Runners int     `json:"runners"`
+	Rounds  int     `json:"rounds"`
+	NewArgs int     `json:"new_args"` // argument count of the second implementation (1 or 2)
+}
+
+func swapV1(args []xpath.Datum) xpath.Datum { return xpath.NewLiteralDatum("v1:" + args[0].Literal("verif-swap")) }
+func swapV2(args []xpath.Datum) xpath.Datum { return xpath.NewLiteralDatum("v2:" + args[0].Literal("verif-swap")) }
+
+func registerSwap(fn xpath.CustomFn, nargs int) {
+	ac := []xpath.DatumTypeChecker{xpath.TypeIsLiteral}
+	if nargs == 2 {
+		ac = append(ac, xpath.TypeIsLiteral)
+	}
+	xpath.RegisterCustomFunctions([]xpath.CustomFunctionInfo{{Name: "verif-swap", FnPtr: fn, Args: ac, RetType: xpath.TypeIsLiteral, DefaultRetVal: xpath.NewLiteralDatum("swap-default")}})
+}
+
+func genRereg(t *rapid.T) ReregCase {
+	srcs := []string{"verif-swap(a)", "concat(verif-swap(a), verif-swap(../b))", "string-length(verif-swap(current()/a)) > 3", "verif-swap(concat(a, 'x'))"}
+	return ReregCase{Src: srcs[rapid.IntRange(0, len(srcs)-1).Draw(t, "reregsrc")], Ctx: tree.ID{{Name: []string{"ctx", "x", "top"}[rapid.IntRange(0, 2).Draw(t, "reregctx")]}},
+		Runners: rapid.IntRange(1, 6).Draw(t, "runners"), Rounds: rapid.IntRange(1, 4).Draw(t, "rounds"), NewArgs: rapid.IntRange(1, 2).Draw(t, "newargs")}
+}
+
+func checkRereg(c ReregCase) fw.Outcome {
+	out := fw.Outcome{NonTrivial: c.Runners >= 2, Labels: []string{fmt.Sprintf("new-args:%d", c.NewArgs)}}
+	registerSwap(swapV1, 1)
+	defer registerSwap(swapV1, 1)
+	it := Item{Src: c.Src, Ctx: c.Ctx}
+	m, err := expr.NewExprMachineWithCustomFunctions(c.Src, nil)
+	if err != nil {
+		out.Violation = fmt.Sprintf("%q does not compile: %v", c.Src, err)
+		return out
+	}
+	want := runMachine(m, it)
+	listing := m.PrintMachine()
+	var mu sync.Mutex
+	var problems []string
+	var wg sync.WaitGroup
+	stop := make(chan struct{})
+	for g := 0; g < c.Runners; g++ {
+		wg.Add(1)
+		go func(g int) {
+			defer wg.Done()
+			defer func() {
+				if r := recover(); r != nil {
+					mu.Lock()
+					problems = append(problems, fmt.Sprintf("runner %d panicked: %v", g, r))
+					mu.Unlock()
+				}
+			}()
+			for {
+				select {
+				case <-stop:
+					return
+				default:
+				}
+				if got := runMachine(m, it); got != want {
+					mu.Lock()
+					problems = append(problems, fmt.Sprintf("machine %q compiled with the first implementation returned %q after/while another was registered, before %q", c.Src, got, want))
+					mu.Unlock()
+					return
+				}
+				runtime.Gosched()
+			}
+		}(g)
+	}
+	for r := 0; r < c.Rounds; r++ {
+		registerSwap(swapV2, c.NewArgs)
+		runtime.Gosched()
+		if got := runMachine(m, it); got != want {
+			mu.Lock()
+			problems = append(problems, fmt.Sprintf("machine %q returned %q after the function was registered again, before %q", c.Src, got, want))
+			mu.Unlock()
+		}
+		registerSwap(swapV1, 1)
+	}
+	close(stop)
+	wg.Wait()
+	if m.PrintMachine() != listing {
+		problems = append(problems, "the listing of the machine changed")
+	}
+	if len(problems) > 0 {
+		out.Violation = strings.Join(problems[:min(len(problems), 3)], "\n")
+	}
+	return out
+}
+
+var rereg = fw.Register(&fw.Prop[ReregCase]{
+	ID: "C06", Name: "reregister",
+	Rule: "a machine that calls a custom function is compiled, then 1-6 goroutines run it in a loop while the same function name is registered 1-4 times with another implementation (with the same or another " +
+		"number of arguments) and back; oracle: every run of the machine returns what it returned before the first re-registration, its listing is unchanged, the binary is built with -race; " +
+		"non-trivial = at least two runners",
+	Gen: genRereg, Check: checkRereg, Weight: 0.3,
+})
+
+func TestReregister(t *testing.T) { fw.Run(t, rereg) }
+
 func TestMain(m *testing.M) {
 	xpath.RegisterCustomFunctions([]xpath.CustomFunctionInfo{{
 		Name: "verif-echo", FnPtr: verifEcho, Args: []xpath.DatumTypeChecker{xpath.TypeIsLiteral},
